@@ -342,8 +342,14 @@ def inline_helpers(tree, known_functions):
                         pre.append(ast.Assign(targets=[ast.Name(id=nm, ctx=ast.Store())], value=_clone(a), lineno=s.lineno))
                 # helper locals that collide with names of the caller get a suffix
                 for v in sorted(stored - set(params)):
-                    if v in caller_names and not (isinstance(s, ast.Assign) and v in [t.id for t in s.targets if isinstance(t, ast.Name)]):
-                        mapping[v] = '%s__%s' % (v, h.node.name.strip('_'))
+                    if v not in caller_names:
+                        continue
+                    if isinstance(s, ast.Assign) and v in [x.id for t in s.targets for x in ast.walk(t)
+                                                           if isinstance(x, ast.Name) and isinstance(x.ctx, ast.Store)]:
+                        continue                      # the statement itself overwrites it
+                    if not _live_after(fn, v, s):
+                        continue                      # what the caller held in it is never read again
+                    mapping[v] = '%s__%s' % (v, h.node.name.strip('_'))
                 _subst_names(body, mapping)
                 whole = isinstance(s, ast.Assign) and s.value is call and len(s.targets) == 1
                 if not h.returns_value or (yf and isinstance(s, ast.Expr)):
@@ -381,6 +387,7 @@ def inline_helpers(tree, known_functions):
                             y.end_lineno = getattr(s, 'end_lineno', s.lineno)
                             y.end_col_offset = getattr(s, 'end_col_offset', 0)
                 block[i:i + 1] = new
+                _CFGS.pop(id(fn), None)
                 done.append('call of helper %s inlined in %s' % (h.key, fn.name))
                 i += len(new)
         rec(fn.body)
@@ -393,6 +400,47 @@ def inline_helpers(tree, known_functions):
                 if isinstance(m, ast.FunctionDef):
                     process(m, s.name)
     return done
+
+
+def _live_after(fn, name, stmt):
+    """May the value `name` holds when `stmt` starts be read after `stmt`?  (flow-sensitive; True when in doubt)"""
+    try:
+        from sa.cfg import CFG, node_defs, node_exprs
+        key = id(fn)
+        g = _CFGS.get(key)
+        if g is None or g[0] is not fn:
+            g = (fn, CFG(fn))
+            _CFGS[key] = g
+        g = g[1]
+        start = g.node_of.get(stmt)
+        if start is None:
+            return True
+        seen = set()
+        stack = [x for x, _ in start.succs]
+        while stack:
+            n = stack.pop()
+            if n in seen:
+                continue
+            seen.add(n)
+            if n.ast is not None:
+                for e in node_exprs(n):
+                    for x in ast.walk(e):
+                        if isinstance(x, ast.Name) and x.id == name and isinstance(x.ctx, ast.Load):
+                            return True
+                        if isinstance(x, (ast.Lambda, ast.ListComp, ast.GeneratorExp, ast.DictComp, ast.SetComp)):
+                            pass
+                if isinstance(n.ast, (ast.FunctionDef, ast.ClassDef)) and any(
+                        isinstance(x, ast.Name) and x.id == name for x in ast.walk(n.ast)):
+                    return True
+                if name in node_defs(n) and n.kind == 'stmt' and not isinstance(n.ast, ast.AugAssign):
+                    continue
+            stack.extend(x for x, _ in n.succs)
+        return False
+    except Exception:
+        return True
+
+
+_CFGS = {}
 
 
 def _dead_after(fn, name, stmt):
